@@ -33,7 +33,7 @@ func (c08) Runs(tier string) int {
 	if tier == "thorough" {
 		return 5000
 	}
-	return 2400
+	return 2000
 }
 
 func (p c08) Run(runseed uint64, tier string, acc *Acc) []*core.Violation {
